@@ -237,7 +237,17 @@ pub fn run(ctx: &Ctx) -> Outcome {
         let curves = rng.chance(0.6);
         // one case in three takes C08's path grammar: several subpaths, commands right after Close (which
         // continue from that subpath's start), curves ending on their start, missing MoveTo, arcs
-        let path = if i % 3 == 0 { super::c08::gen_path(&mut rng, w, h, false) } else { crate::gen::random_path(&mut rng, w, h, curves) };
+        let path = if i % 500 == 499 {
+            // hundreds of contours around the same area: the point is inside whatever the count
+            let n = *rng.pick(&[127usize, 128, 129, 200, 255, 256, 257, 300]);
+            let mut pb = PathBuilder::new();
+            for k in 0..n {
+                let g = (k % 3) as f32 * 0.5;
+                pb.rect(2. + g, 2. + g, w as f32 - 4. - 2. * g, h as f32 - 4. - 2. * g);
+            }
+            st.add("paths_with_hundreds_of_overlapping_contours", 1);
+            pb.finish()
+        } else if i % 3 == 0 { super::c08::gen_path(&mut rng, w, h, false) } else { crate::gen::random_path(&mut rng, w, h, curves) };
         let mut dt = DrawTarget::new(w, h);
         dt.fill(&path, &Source::Solid(WHITE), &DrawOptions::new());
         let d = dt.get_data();
